@@ -31,19 +31,12 @@ def sliding_windows(
     n_cols = kernel_output_size
 
     result = np.empty((n_rows, n_cols), dtype=kernel_output_dtype)
-    if sample.shape[0] < width:
-        for i in range(n_rows):
-            result[i] = kernel(sequence[i * stride : i * stride + width][sample])
-            # result[i] = np.asarray(
-            #     kernel
-            #     @ (sequence[i * stride : i * stride + width])[sample].astype(np.float64)
-            # ).flatten()
-    else:
-        for i in range(n_rows):
-            result[i] = kernel(sequence[i * stride : i * stride + width])
-            # result[i] = np.asarray(
-            #     kernel @ (sequence[i * stride : i * stride + width]).astype(np.float64)
-            # ).flatten()
+    for i in range(n_rows):
+        result[i] = kernel(sequence[i * stride : i * stride + width][sample])
+        # result[i] = np.asarray(
+        #     kernel
+        #     @ (sequence[i * stride : i * stride + width])[sample].astype(np.float64)
+        # ).flatten()
 
     return result
 
